@@ -4,7 +4,9 @@ D=$(readlink -f "$1"); IDS=$2
 WT=$(mktemp -d /tmp/cs_XXXXXX); rmdir $WT
 git -C /repo worktree add -q --detach "$WT" HEAD
 trap 'git -C /repo worktree remove --force "$WT" >/dev/null 2>&1' EXIT
-run_demo() { (cd "$WT" && if grep -q "def test_" "$D/demo.py"; then PYTHONPATH="$WT/src" timeout 900 /venv/bin/python -m pytest -q -p no:cacheprovider "$D/demo.py" >/tmp/cs_demo.log 2>&1; else PYTHONPATH="$WT/src" timeout 900 /venv/bin/python "$D/demo.py" >/tmp/cs_demo.log 2>&1; fi; echo $?); }
+# the demo is run from <scratch worktree>/out/seed/ so that demos which locate the sources relative to their own path use the scratch tree
+mkdir -p "$WT/out/seed" && cp "$D"/demo.py "$WT/out/seed/demo.py"
+run_demo() { (cd "$WT" && if grep -q "def test_" "$WT/out/seed/demo.py"; then PYTHONPATH="$WT/src" timeout 900 /venv/bin/python -m pytest -q -p no:cacheprovider "$WT/out/seed/demo.py" >/tmp/cs_demo.log 2>&1; else PYTHONPATH="$WT/src" timeout 900 /venv/bin/python "$WT/out/seed/demo.py" >/tmp/cs_demo.log 2>&1; fi; echo $?); }
 echo "demo WITHOUT patch: exit $(run_demo)"
 if ! git -C "$WT" apply "$D/patch.diff"; then echo "PATCH DOES NOT APPLY to HEAD"; exit 2; fi
 echo "demo WITH patch:    exit $(run_demo)"; tail -3 /tmp/cs_demo.log | cut -c1-200
